@@ -334,6 +334,20 @@ def check_threaded_storage(prog, rep):
     handled = False
     for st in stmts_of(f):
         if isinstance(st, ast.If) and 'self._waiting_for_load' in unparse(st.test):
+            # the guard must not be narrower than `key in self._waiting_for_load`
+            t = st.test
+            narrowed = isinstance(t, ast.BoolOp) and isinstance(t.op, ast.And)
+            if not narrowed and not (isinstance(t, ast.Compare) and isinstance(
+                    t.ops[0], ast.In)) and not (isinstance(t, ast.BoolOp) and isinstance(
+                        t.op, ast.Or)):
+                narrowed = True
+            if narrowed:
+                rep.violation('TS-save-pending-load', m, 'ThreadedStorage.save',
+                              'pending-load-guard-narrowed',
+                              'the update of `_loaded[key]` is guarded by `%s`, which is narrower '
+                              'than `key in self._waiting_for_load`: when the (pre)load has '
+                              'already completed the old value stays in `_loaded` and the next '
+                              'load returns it' % unparse(t), st.lineno)
             j = any(_calls_named(b, 'self.worker.join_tasks') for b in st.body)
             w = [b for b in st.body if isinstance(b, ast.Assign) and any(
                 isinstance(t, ast.Subscript) and dotted(t.value) == 'self._loaded'
@@ -788,6 +802,29 @@ def check_events(prog, rep):
     # copy(): independent listener list
     f = m.func('EventHandler.copy')
     rep.instance('EV-copy', {})
+    init = m.func('EventHandler.__init__')
+    init_attrs = [t.attr for s in stmts_of(init) if isinstance(s, ast.Assign)
+                  for t in s.targets if is_self_attr(t)]
+    copied = {}
+    for s in stmts_of(f):
+        if isinstance(s, ast.Assign):
+            for t in s.targets:
+                if isinstance(t, ast.Attribute) and isinstance(t.value, ast.Name) and \
+                        t.value.id != 'self':
+                    copied[t.attr] = s
+    ctor_args = ' '.join(unparse(c) for c in body_calls(f) if dotted(c.func) in (
+        'EventHandler', 'self.__class__', 'type(self)'))
+    for a in init_attrs:
+        if a in copied:
+            s = copied[a]
+            if ('self.' + a) not in unparse(s.value):
+                rep.violation('EV-copy', m, 'EventHandler.copy', 'copy-field:' + a,
+                              '`%s`: the copy\'s %s is not taken from self.%s (e.g. listener ids '
+                              'are re-used after a disconnect, so disconnect(id) on the copy '
+                              'removes another listener)' % (key_text(s), a, a), s.lineno)
+        elif ('self.' + a) not in ctor_args:
+            rep.violation('EV-copy', m, 'EventHandler.copy', 'copy-field-missing:' + a,
+                          'copy() does not carry over self.%s' % a, f.lineno)
     for s in stmts_of(f):
         if isinstance(s, ast.Assign) and any(
                 isinstance(t, ast.Attribute) and t.attr == 'listeners' for t in s.targets):
